@@ -23,6 +23,7 @@ RULE = (
     "write, read) gets an injected OSError and EVERY job notification gets a TaskHandle.stop(); non-trivial = fault "
     "point with >=1 sub-change already applied in a change set that has a dependent leaf pair; distinct by "
     "(case hash, phase, fault kind, index)"
+    "; half of the cases have a non-empty redo list before the faulty do; the injected failure alternates between an OSError and another Exception subclass"
 )
 ASSUMPTIONS = [
     "faults are injected at the Project(fscommands=...) interface and at JobSet notifications, not inside the OS",
